@@ -15,8 +15,8 @@ Definition odoc_eqb (a b : option doc) : bool :=
 
 Definition msg_eqb (a b : msg) : bool :=
   match a, b with
-  | MRequest p t pt d dc, MRequest p' t' pt' d' dc' =>
-      proto_eqb p p' && N.eqb t t' && N.eqb pt pt' && N.eqb d d' && odoc_eqb dc dc'
+  | MRequest p t rid pt d dc, MRequest p' t' rid' pt' d' dc' =>
+      proto_eqb p p' && N.eqb t t' && N.eqb rid rid' && N.eqb pt pt' && N.eqb d d' && odoc_eqb dc dc'
   | MResponse p t d dc s, MResponse p' t' d' dc' s' =>
       proto_eqb p p' && N.eqb t t' && N.eqb d d' && odoc_eqb dc dc' &&
       match p with DX => true | LC => N.eqb s s' end     (* only the legacy response carries a signature *)
@@ -24,6 +24,7 @@ Definition msg_eqb (a b : msg) : bool :=
   | MPing f t, MPing f' t' => N.eqb f f' && N.eqb t t'
   | MPingV2 f t, MPingV2 f' t' => N.eqb f f' && N.eqb t t'
   | MInit d f t, MInit d' f' t' => doc_eqb d d' && N.eqb f f' && N.eqb t t'
+  | MRotate i s g f t, MRotate i' s' g' f' t' => N.eqb i i' && N.eqb s s' && N.eqb g g' && N.eqb f f' && N.eqb t t'
   | _, _ => false
   end.
 
